@@ -29,6 +29,10 @@
 // reached library macro calls (a sibling) to a macro of its own or to an alias of another macro — the
 // library macro must still render what it renders in its defining template; signatures of 8, 9, 10 and
 // 12 parameters (thorough 4 … 12) with argument lists around the number of parameters.
+//
+// Escape dimension (escape.go): the text of the macro's body carries escaped delimiters (\{{ p0 }},
+// \{% if p0 %}, \{# p0 #} …) next to the real print tags; that text must render inside the macro what
+// the same text renders outside a macro (metamorphic twin), on every way of reaching the macro.
 package main
 
 import (
@@ -241,12 +245,14 @@ type kase struct {
 	ArgSt    int
 	Body     int
 	Site     int
-	Pad      int  // 0 none, 1 defining template above 4096 bytes, 2 calling template above 4096 bytes
-	Hist     int  // hEach or hSeq
-	Use      int  // uPrint … uTwo
-	Mark     bool // second version of the macro (families replace, partial): the body's text carries a mark; not part of the key
-	Col      int  // collide.go: how the importing template binds a name that a macro of the library also carries (cNone: it does not)
-	ColNames int  // … which names (bit set nmG, nmF)
+	Pad      int    // 0 none, 1 defining template above 4096 bytes, 2 calling template above 4096 bytes
+	Hist     int    // hEach or hSeq
+	Use      int    // uPrint … uTwo
+	Mark     bool   // second version of the macro (families replace, partial): the body's text carries a mark; not part of the key
+	Col      int    // collide.go: how the importing template binds a name that a macro of the library also carries (cNone: it does not)
+	ColNames int    // … which names (bit set nmG, nmF)
+	Esc      int    // escape.go: the body's text carries an escaped fragment (\{{ p0 }} …) at its start and at its end (eNone: it does not)
+	escOut   string // escape.go, model only: what that fragment renders outside a macro (its twin); not part of the key
 }
 
 func (c *kase) key() string {
@@ -254,6 +260,9 @@ func (c *kase) key() string {
 		c.Argc, argStyleName[c.ArgSt], bodyName[c.Body], siteName[c.Site], c.Pad)
 	if c.Use != uPrint {
 		k += "|u:" + useName[c.Use]
+	}
+	if c.Esc != eNone {
+		k += "|e:" + escName[c.Esc]
 	}
 	if c.Hist == hSeq {
 		k += "|seq"
@@ -310,7 +319,7 @@ func (c *kase) first() string {
 
 func (c *kase) bodySrc() string {
 	var b strings.Builder
-	b.WriteString("[" + c.mark())
+	b.WriteString("[" + c.mark() + c.escFrag())
 	switch c.Body {
 	case bControl:
 		for i := 0; i < c.N; i++ {
@@ -332,7 +341,7 @@ func (c *kase) bodySrc() string {
 	case bRelInc:
 		b.WriteString("{% include './part' %}")
 	}
-	b.WriteString("]")
+	b.WriteString(c.escFrag() + "]")
 	return b.String()
 }
 
@@ -633,7 +642,7 @@ func (c *kase) callOutputWith(alt bool) string {
 		first = vals[0]
 	}
 	var b strings.Builder
-	b.WriteString("[" + c.mark())
+	b.WriteString("[" + c.mark() + c.escOut)
 	switch c.Body {
 	case bControl:
 		for _, v := range vals {
@@ -659,7 +668,7 @@ func (c *kase) callOutputWith(alt bool) string {
 	case bRelInc:
 		b.WriteString(partSrc)
 	}
-	b.WriteString("]")
+	b.WriteString(c.escOut + "]")
 	return b.String()
 }
 
@@ -828,9 +837,52 @@ func check(c kase) *vlib.Outcome {
 		class += "|" + colName[c.Col] + ":" + colNamesName[c.ColNames]
 	}
 	o := &vlib.Outcome{
-		Nontrivial: c.N+c.Argc > 0 && (c.Col == cNone || c.colExercised()),
+		Nontrivial: (c.N+c.Argc > 0 || c.Esc != eNone) && (c.Col == cNone || c.colExercised()),
 		Class:      class,
 		Counters:   map[string]int64{},
+	}
+	// escape dimension (escape.go): the escaped fragments of the body render what the same fragment
+	// renders outside a macro, under the tokenizer of the macro's defining template; wants[1] is the
+	// expectation for the ways whose defining template stands above 4096 bytes
+	wants := [2]string{want, want}
+	wantOK := [2]bool{true, true}
+	if c.Esc != eNone {
+		twins, headline := "", -1
+		for p := 0; p < 2; p++ {
+			need := false
+			for r := 0; r < nReaches; r++ {
+				need = need || c.defPadded(r) == (p == 1)
+			}
+			if !need {
+				continue
+			}
+			o.Counters["twin_renders"]++
+			out, errText := c.escTwin(p == 1)
+			if errText != "" {
+				o.Counters["twin_errors"]++
+				wantOK[p] = false
+				twins += "|twin-error"
+				continue
+			}
+			cc := c
+			cc.escOut = out
+			wants[p] = cc.expected()
+			if headline < 0 {
+				headline = p
+			}
+			if out == c.escLiteral() {
+				twins += "|literal"
+			} else {
+				twins += "|not-literal"
+			}
+		}
+		o.Class += "|e:" + escName[c.Esc] + twins
+		if !wantOK[0] && !wantOK[1] {
+			o.Nontrivial = false
+		}
+		if headline >= 0 {
+			want = wants[headline] // shown in the message; a render that has the other expectation says so
+		}
 	}
 	var bad []string
 	var detail []interface{}
@@ -856,10 +908,24 @@ func check(c kase) *vlib.Outcome {
 				obs = "error: " + errText
 			}
 			outs[obs] = true
-			if errText == "" && got == want {
+			wantHere := want
+			if c.Esc != eNone {
+				p := 0
+				if c.defPadded(st.reach) {
+					p = 1
+				}
+				if !wantOK[p] {
+					continue // the fragment does not render outside a macro either: no verdict
+				}
+				wantHere = wants[p]
+			}
+			if errText == "" && got == wantHere {
 				continue
 			}
 			where := fmt.Sprintf("engine %q, render %d of %d (%s, reached by %s)", h.label, i+1, len(h.steps), st.name, reachName[st.reach])
+			if wantHere != want {
+				where += fmt.Sprintf(" [want here %q]", wantHere)
+			}
 			if len(bad) < 4 {
 				if !shown {
 					bad = append(bad, fmt.Sprintf("%s: %v gives %s", where, show(h.src), obs))
@@ -924,6 +990,7 @@ type family struct {
 	masks           func(int) []int // the subsets of parameters with defaults, when not every subset
 	argcs           func(int) []int // the numbers of arguments, when not minArgc … n+1
 	cols            []int           // collide.go: kinds of name collision between the importing side and the library; nil: none
+	escs            []int           // escape.go: escaped fragments in the text of the macro's body; nil: none
 }
 
 func ints(n int) []int {
@@ -940,6 +1007,10 @@ func families(thorough bool) []family {
 		return []family{
 			{name: "full", names: f, maxN: 3, defSt: ints(nDefStyles), spacings: ints(nSpacings), argSt: ints(nArgStyles), bodies: ints(nBodies), sites: ints(nSites), pads: []int{0, 1, 2}},
 			{name: "builtin-name", names: []string{"max"}, maxN: 3, defSt: []int{0, 2}, spacings: []int{0, 3}, argSt: []int{asInt}, bodies: ints(nBodies), sites: ints(nSites), pads: []int{0, 1}, minArgc: 1},
+			// escaped delimiters in the text of the macro's body (escape.go)
+			{name: "escaped", names: f, maxN: 3, defSt: []int{0, 1}, spacings: []int{0}, argSt: []int{asStr, asNull, asPar}, bodies: ints(nBodies), sites: allSitesAndWrap, pads: []int{0, 1, 2}, escs: allEscs},
+			{name: "escaped-held", names: f, maxN: 2, defSt: []int{0}, spacings: []int{0}, argSt: []int{asStr, asPar}, bodies: []int{bPrint, bSelfSibling}, sites: ints(nSites), pads: []int{0, 1}, minArgc: 1, uses: heldUses, escs: allEscs},
+			{name: "escaped-seq", names: f, maxN: 2, defSt: []int{0}, spacings: []int{0}, argSt: []int{asStr, asPar}, bodies: []int{bPrint, bSelfSibling}, sites: ints(nSites), pads: []int{0, 1}, hist: hSeq, escs: allEscs},
 			// wide signatures (collide.go): 4 … 12 parameters
 			{name: "wide", names: f, ns: []int{4, 5, 6, 7, 8, 9, 10, 11, 12}, masks: wideMasksThorough, argcs: wideArgcsThorough, defSt: []int{0}, spacings: []int{0}, argSt: []int{asStr, asNull, asPar}, bodies: []int{bPrint, bSelfSibling}, sites: allSitesAndWrap, pads: []int{0}},
 			{name: "wide-spelling", names: f, ns: []int{8, 9, 10, 12}, masks: widePatterns, argcs: wideArgcs, defSt: []int{0, 1, 3}, spacings: ints(nSpacings), argSt: []int{asStr, asExpr}, bodies: []int{bPrint, bControl}, sites: []int{sTop, sInclude, sLibSelf, sWrap}, pads: []int{0, 1, 2}},
@@ -972,6 +1043,12 @@ func families(thorough bool) []family {
 		// padding of either template on every site
 		{name: "pad", names: f, maxN: 2, defSt: []int{1, 3}, spacings: []int{0, 1}, argSt: []int{asStr, asExpr}, bodies: []int{bSet, bSibling, bSelfSibling}, sites: ints(nSites), pads: []int{1, 2}},
 		{name: "builtin-name", names: []string{"max"}, maxN: 2, defSt: []int{0}, spacings: []int{0}, argSt: []int{asInt}, bodies: []int{bPrint, bSelfSibling}, sites: ints(nSites), pads: []int{0}, minArgc: 1},
+		// escaped delimiters in the text of the macro's body (escape.go): \{{ p0 }}, \{% if p0 %}, \{# p0 #} … at the
+		// start and at the end of the body, next to the real print tags; the defining template on either side of
+		// the tokenizer switch; every site, every way of reaching the macro
+		{name: "escaped", names: f, maxN: 2, defSt: []int{0}, spacings: []int{0}, argSt: []int{asStr, asPar}, bodies: []int{bPrint, bSelfSibling}, sites: ints(nSites), pads: []int{0, 1}, escs: allEscs},
+		// … with the value of the call held
+		{name: "escaped-held", names: f, maxN: 1, defSt: []int{0}, spacings: []int{0}, argSt: []int{asStr, asPar}, bodies: []int{bPrint}, sites: ints(nSites), pads: []int{0}, minArgc: 1, uses: []int{uSet2, uOuter}, escs: allEscs},
 		// wide signatures (collide.go): 8, 9, 10 and 12 parameters, patterns of defaults, arguments for all
 		// parameters but the last two / for all / one more; the body prints every parameter; every site, every
 		// way of reaching the macro; either template on either side of the tokenizer switch
@@ -1002,6 +1079,10 @@ func (f *family) each(emit func(kase)) {
 	uses := f.uses
 	if uses == nil {
 		uses = []int{uPrint}
+	}
+	escs := f.escs
+	if escs == nil {
+		escs = []int{eNone}
 	}
 	ns := f.ns
 	if ns == nil {
@@ -1037,7 +1118,10 @@ func (f *family) each(emit func(kase)) {
 											for _, u := range uses {
 												base := kase{Name: nm, N: n, DefMask: mask, DefSt: ds, Spacing: sp, Argc: argc, ArgSt: as, Body: b, Site: s, Pad: p, Hist: f.hist, Use: u}
 												if f.cols == nil {
-													emit(base)
+													for _, e := range escs {
+														base.Esc = e
+														emit(base)
+													}
 													continue
 												}
 												if s == sWrap {
@@ -1101,7 +1185,7 @@ func main() {
 	vlib.Main(vlib.Spec{
 		ID:    "C12",
 		Level: "exploration",
-		Rule:  "every macro signature with 0–3 parameters × every subset with defaults × 5 kinds of constant default × 4 declaration spacings × argument lists of 0…n+1 arguments × 6 kinds of argument × 6 bodies (print, set inside, call a sibling, call a sibling through _self, if/for over parameters, include a name relative to the defining template) × 11 call sites (top, for, if, block, block of an extending template, included template, inside another macro, through a macro w next to f calling f / _self.f, import statement inside a for body, importing template included from a for body) × padding of the defining or the calling template above 4096 bytes, as a union of full products (families, see NOTES.md). One case takes the same macro and call once per way of reaching it (direct, _self, import, from, from-as, multi-name from) and compares every render with the binding model. Histories on one engine: history 'each' renders every way's calling template three times in a row on its own engine; history 'seq' (own families) puts the calling templates of all ways on ONE engine next to one library and renders them one after the other, in every rotation of their order and in reverse, two passes each. Use of the call's VALUE (families 'held', 'held-seq', calls with at least one argument): besides being printed once, the value is held and used several times — {% set r = CALL %}{{ r }}|{{ r }}; {% set r = CALL %}{% for i in [1, 2] %}{{ r }}{% endfor %}; passed to a macro tw that prints its parameter twice, tw reached through {% import 'olib' as o %} (o.tw(CALL)) or defined in the calling template (tw(CALL), _self.tw(CALL)); two calls of the macro with different arguments held before either is printed ({% set r = CALL %}{% set q = CALL2 %}{{ r }}{{ q }}{{ r }}) — for every way of reaching the macro, on every site; model: a held value is the text the call renders, every time it is used. Version dimension (families 'replace…', 'partial…'; keys 'repl:<how>:<change>|…', 'part:<wayA>><wayB>:<change>|…'): the macro has a second version — other body text / the complementary subset of defaults of another kind / one parameter more / one fewer / all three at once. replace: the calling templates of the ways import, from, from-as, multi-name from stand on one engine next to the library; all are rendered, the library is replaced by the other version, all are rendered, it is replaced back, all are rendered (starting from either version, callers in order and in reverse order); replaced by RegisterString again / by changing the source in a loader with caching disabled / by changing source and modification time in a timestamp-aware loader with auto-reload on / the same with the calling templates registered as strings; every render must equal the model of the version current at that render. partial: includers pageA and pageB supply version 1 and version 2 of the macro (defined in the includer, or reached there by from / from-as / multi-name from / import from its own library; every pair of ways for which the call reads the same), call it and then include the shared partial row, which makes the same call; pageA, pageB, pageA, pageB and pageB, pageA, pageB, pageA on one engine each: both calls must render the version of the page being rendered. Wide signatures (families 'wide…'): 8, 9, 10 and 12 parameters (thorough: 4 … 12) with patterns of defaults (none, all, every other one in both phases, the last, the last two, all but the first, all from the ninth on; thorough: also every single default / every single parameter without one), arguments for all parameters but the last two, for all, and one more than there are parameters (thorough: 0 … n+2), bodies that print every parameter, on every site, through every way of reaching the macro, printed and held. Collision dimension (families 'collide…', keys 'col:<kind>:<names>|…', ways import/from/from-as/multi-name from): the importing template binds a name that the reached library macro calls (the sibling g called by bodies sib/selfsib; for sites libw/libwself also f, which w calls, or both) to something else — a macro of its own defined before or after the import, or another macro imported under that name as an alias (from the same library or from another one, in its own from-statement before or after the import, or inside the from-statement that imports the macro, before or after it) — and calls that name itself after the call; the library macro must render what it renders when called directly in its defining template (the model), the importing template's own call its own macro. Site wrap (these families): the import stands at top level of the calling template, the call inside a macro v of that template. Non-trivial: the signature or the call has at least one parameter/argument, i.e. a binding decision is made (version families: and the two versions render differently; collision cases: and the reached macro calls a colliding name)",
+		Rule:  "every macro signature with 0–3 parameters × every subset with defaults × 5 kinds of constant default × 4 declaration spacings × argument lists of 0…n+1 arguments × 6 kinds of argument × 6 bodies (print, set inside, call a sibling, call a sibling through _self, if/for over parameters, include a name relative to the defining template) × 11 call sites (top, for, if, block, block of an extending template, included template, inside another macro, through a macro w next to f calling f / _self.f, import statement inside a for body, importing template included from a for body) × padding of the defining or the calling template above 4096 bytes, as a union of full products (families, see NOTES.md). One case takes the same macro and call once per way of reaching it (direct, _self, import, from, from-as, multi-name from) and compares every render with the binding model. Histories on one engine: history 'each' renders every way's calling template three times in a row on its own engine; history 'seq' (own families) puts the calling templates of all ways on ONE engine next to one library and renders them one after the other, in every rotation of their order and in reverse, two passes each. Use of the call's VALUE (families 'held', 'held-seq', calls with at least one argument): besides being printed once, the value is held and used several times — {% set r = CALL %}{{ r }}|{{ r }}; {% set r = CALL %}{% for i in [1, 2] %}{{ r }}{% endfor %}; passed to a macro tw that prints its parameter twice, tw reached through {% import 'olib' as o %} (o.tw(CALL)) or defined in the calling template (tw(CALL), _self.tw(CALL)); two calls of the macro with different arguments held before either is printed ({% set r = CALL %}{% set q = CALL2 %}{{ r }}{{ q }}{{ r }}) — for every way of reaching the macro, on every site; model: a held value is the text the call renders, every time it is used. Version dimension (families 'replace…', 'partial…'; keys 'repl:<how>:<change>|…', 'part:<wayA>><wayB>:<change>|…'): the macro has a second version — other body text / the complementary subset of defaults of another kind / one parameter more / one fewer / all three at once. replace: the calling templates of the ways import, from, from-as, multi-name from stand on one engine next to the library; all are rendered, the library is replaced by the other version, all are rendered, it is replaced back, all are rendered (starting from either version, callers in order and in reverse order); replaced by RegisterString again / by changing the source in a loader with caching disabled / by changing source and modification time in a timestamp-aware loader with auto-reload on / the same with the calling templates registered as strings; every render must equal the model of the version current at that render. partial: includers pageA and pageB supply version 1 and version 2 of the macro (defined in the includer, or reached there by from / from-as / multi-name from / import from its own library; every pair of ways for which the call reads the same), call it and then include the shared partial row, which makes the same call; pageA, pageB, pageA, pageB and pageB, pageA, pageB, pageA on one engine each: both calls must render the version of the page being rendered. Wide signatures (families 'wide…'): 8, 9, 10 and 12 parameters (thorough: 4 … 12) with patterns of defaults (none, all, every other one in both phases, the last, the last two, all but the first, all from the ninth on; thorough: also every single default / every single parameter without one), arguments for all parameters but the last two, for all, and one more than there are parameters (thorough: 0 … n+2), bodies that print every parameter, on every site, through every way of reaching the macro, printed and held. Collision dimension (families 'collide…', keys 'col:<kind>:<names>|…', ways import/from/from-as/multi-name from): the importing template binds a name that the reached library macro calls (the sibling g called by bodies sib/selfsib; for sites libw/libwself also f, which w calls, or both) to something else — a macro of its own defined before or after the import, or another macro imported under that name as an alias (from the same library or from another one, in its own from-statement before or after the import, or inside the from-statement that imports the macro, before or after it) — and calls that name itself after the call; the library macro must render what it renders when called directly in its defining template (the model), the importing template's own call its own macro. Site wrap (these families): the import stands at top level of the calling template, the call inside a macro v of that template. Escape dimension (families 'escaped…', key suffix '|e:<kind>'): the TEXT of the macro's body contains escaped delimiters — a fragment written with a backslash before each opener stands directly after the body's opening '[' (before the first real print tag) and directly before its closing ']' (after the last real tag); kinds of fragment: every parameter as an escaped print tag (\\{{ p0 }}:\\{{ p1 }}; without parameters p0 is an outer variable), filter expressions on the last parameter (\\{{ p1|upper }}\\{{ p1|default('x') }}), an outer variable and an unknown name (\\{{ q0 }}\\{{ zz }}), escaped block tags (\\{% if p0 %}\\{{ p1 }}\\{% endif %}\\{% set p0 = 'e' %}), an escaped comment (\\{# p0 #}), tight and dashed spellings (\\{{p0}}\\{{- p1 -}}); the fragment must render inside the macro what the same fragment renders at top level of a template of its own with the same names bound (twin, tokenized like the macro's defining template), spliced into the binding model's output — on every way of reaching the macro, every site. Non-trivial: the signature or the call has at least one parameter/argument, i.e. a binding decision is made, or the body's text carries an escaped fragment (version families: and the two versions render differently; collision cases: and the reached macro calls a colliding name)",
 		Assumptions: []string{
 			"defaults and arguments are constant expressions or caller-scope variables; bodies read only their parameters; the result of a macro call is printed, assigned with set and printed, or passed as an argument to a macro that prints it (never part of a larger expression, never filtered); calls stand after the definitions/imports they use",
 			"macros are defined at top level of a template that does not extend another one; 0–3 parameters with every subset of defaults and 4–12 parameters with patterns of defaults; named arguments and other body shapes are outside the bound; a colliding name is never bound twice on the importing side (own macro and import of the same name)",
@@ -1151,6 +1235,13 @@ func main() {
 						cs = append(cs, colName[c])
 					}
 					extra += fmt.Sprintf("; ways import/from/alias/multi only: the importing template binds a name that the reached library macro calls (g for bodies sib/selfsib; f, g or both for sites libw/libwself) to something else — %v — and calls that name itself after the call; plus site wrap without collision (all six ways but direct/_self)", cs)
+				}
+				if f.escs != nil {
+					var es []string
+					for _, e := range f.escs {
+						es = append(es, escName[e])
+					}
+					extra += fmt.Sprintf("; the text of the macro's body carries an escaped fragment (backslash before the opener) at its start and at its end, inner words %v; expectation for the fragment: what it renders outside a macro (twin)", es)
 				}
 				fs = append(fs, fmt.Sprintf("%s: macro names %v, %s, %d default kinds, %d spacings, %d argument kinds, %d bodies, %d sites, %d padding variants, uses of the call's value %v, %d ways of reaching per case, history %s",
 					f.name, f.names, sig, len(f.defSt), len(f.spacings), len(f.argSt), len(f.bodies), len(f.sites), len(f.pads), uses, nReaches, histName[f.hist])+extra)
